@@ -1,6 +1,8 @@
 package implements
 
 import (
+	"go/types"
+
 	"github.com/a14e/gogreement/src/annotations"
 )
 
@@ -185,6 +187,13 @@ func signaturesMatch(typeMethod TypeMethod, ifaceMethod InterfaceMethod) bool {
 
 // typesMatch checks if two types are the same
 func typesMatch(t1 *MethodType, t2 *InterfaceType) bool {
+	// Types loaded from the type checker are compared by type identity: the
+	// structural fields cannot tell **T from *T, an alias from the type it
+	// denotes, or byte from uint8
+	if t1.Type != nil && t2.Type != nil {
+		return t1.IsVariadic == t2.IsVariadic && types.Identical(t1.Type, t2.Type)
+	}
+
 	return t1.TypeName == t2.TypeName &&
 		t1.TypePackage == t2.TypePackage &&
 		t1.IsPointer == t2.IsPointer &&
